@@ -58,8 +58,8 @@ static int digi_test(HIO_HANDLE *f, char *t, const int start)
 	return -1;
 
     hio_seek(f, 156, SEEK_CUR);
-    hio_seek(f, 3 * 4 * 32, SEEK_CUR);
-    hio_seek(f, 2 * 1 * 32, SEEK_CUR);
+    hio_seek(f, 3 * 4 * 31, SEEK_CUR);
+    hio_seek(f, 2 * 1 * 31, SEEK_CUR);
 
     libxmp_read_title(f, t, 32);
 
